@@ -247,3 +247,40 @@ Example C18_only_over_closure :
   exists l, closure 2 [1; -1]%Z = Some l /\ crossing_signs l = Some [Neg; Pos] /\
             map letter_sign [1; -1]%Z = [Pos; Neg] /\ writhe l = Some (exponent_sum [1; -1]%Z).
 Proof. eexists. split; [vm_compute; reflexivity|]. vm_compute. auto. Qed.
+
+(* ---- braid group operations beside closure (Braid::inv, MulAssign; Model/BraidOps.v) ---------------------- *)
+Require Import Yui.Model.BraidOps Yui.Proofs.C18BraidRows Yui.Proofs.C18BraidGroup.
+
+Theorem C18_braid_inv_word : forall w, braid_inv w = map (fun s => (- s)%Z) (rev w).
+Proof. intros w. reflexivity. Qed.
+Print Assumptions C18_braid_inv_word.
+
+Theorem C18_braid_inv_laws : forall u v,
+  braid_inv (braid_inv u) = u /\ braid_inv (u ++ v) = braid_inv v ++ braid_inv u /\
+  length (braid_inv u) = length u /\ exponent_sum (braid_inv u) = (- exponent_sum u)%Z /\
+  exponent_sum (u ++ v) = (exponent_sum u + exponent_sum v)%Z.
+Proof.
+  intros u v. split; [exact (braid_inv_involutive u)|]. split; [exact (braid_inv_app u v)|].
+  split; [exact (braid_inv_length u)|]. split; [exact (exponent_sum_inv u)|exact (exponent_sum_app u v)].
+Qed.
+Print Assumptions C18_braid_inv_laws.
+
+(* the product with the inverse acts trivially on the strands: its closure has as many components as strands
+   (C18_closure_components) and writhe 0 (C18_closure_writhe) *)
+Theorem C18_braid_inverse_perm : forall n w, Forall (fun s => S (idx s) < n) w ->
+  braid_perm n (w ++ braid_inv w) = seq 0 n /\ braid_perm n (braid_inv w ++ w) = seq 0 n /\
+  exponent_sum (w ++ braid_inv w) = 0%Z.
+Proof.
+  intros n w H. split; [exact (braid_perm_mul_inv n w H)|]. split; [exact (braid_perm_inv_mul n w H)|].
+  rewrite exponent_sum_app, exponent_sum_inv. apply Z.add_opp_diag_r.
+Qed.
+Print Assumptions C18_braid_inverse_perm.
+
+Theorem C18_braid_mul : forall s1 w1 s2 w2,
+  braid_mul s1 w1 s2 w2 = (if (s1 =? s2)%nat then Some (s1, w1 ++ w2) else None).
+Proof. exact braid_mul_spec. Qed.
+Print Assumptions C18_braid_mul.
+
+Example C18_braid_inv_example : braid_inv [1; -2; 3]%Z = [-3; 2; -1]%Z /\
+  braid_perm 4 ([1; -2; 3] ++ braid_inv [1; -2; 3])%Z = [0; 1; 2; 3].
+Proof. split; reflexivity. Qed.
